@@ -76,9 +76,9 @@ theorem C10_note_label (s s' : DC) (x : Xml) (kind : String) (id : Str)
 /-- … and by `C02_paragraph` the first paragraph of the note starts with that label. -/
 theorem C10_label_prefixes_paragraph (cfg : PartCfg) (num : Dict Str (List NumAttr)) (c : Bool) (s s' : DC) (x : Xml)
     (label : Str) (hq : s.queued = [{ style := [], text := label }])
-    (hx : flatPar x = true) (h : walk cfg num c s x = .ok s') :
+    (hx : flatPar x = true) (hni : NoImpl s) (h : walk cfg num c s x = .ok s') :
     ∃ par rest, leafParsL s'.root = leafParsL s.root ++ [par] ∧ parText par = label ++ rest := by
-  obtain ⟨par, h1, _, _, _, _, h6⟩ := C02_paragraph cfg num c s s' x hx h
+  obtain ⟨par, h1, _, _, _, _, h6⟩ := C02_paragraph cfg num c s s' x hx hni h
   cases x with
   | elem i p t m a tx tl ks =>
     simp only [parSpec] at h6
